@@ -64,8 +64,42 @@ def many_roots_case(rng):
     return {"inputs": inputs, "cmps": [["percent", 7, 10], ["number", 10]], "job": job}
 
 
+def cli_pattern_cases(ctx, rng):
+    """the command line over a path pattern that matches several heterogeneous files of one unchanged directory, in fresh
+    processes under different hash seeds: the printed code (header removed) must be the same"""
+    import os
+    import tempfile
+    from .. import clitools, gen
+    with tempfile.TemporaryDirectory(prefix="j2m-c06-") as root:
+        jobs, metas = [], []
+        for k in range(ctx.n(3, 12)):
+            d = os.path.join(root, "c%d" % k)
+            files = {}
+            for i in range(rng.randint(3, 6)):
+                name = rng.choice(["page_%d.json", "sub/page_%d.json", "sub/deep/page_%d.json"]) % i
+                files[name] = [gen.gen_object(rng, 1, rng.sample(gen.WORDS, k=4))]
+            clitools.write_files(d, files)
+            argv = ["-m", "Page", rng.choice(["**/page_*.json", "**/*.json"])] + rng.choice([[], ["-f", "pydantic"], ["-s", "nested"]])
+            for seed in range(ctx.n(6, 12)):
+                jobs.append((argv, d, ctx.repo, seed))
+                metas.append((k, argv, files, seed))
+        results = clitools.run_many(jobs)
+    by_case = {}
+    for (k, argv, files, seed), (rc, out, err) in zip(metas, results):
+        by_case.setdefault(k, []).append((seed, rc, clitools.strip_header(out) if rc == 0 else "exit %d" % rc, argv, files))
+    for k, runs in by_case.items():
+        ctx.case(("cli-pattern", k, tuple(runs[0][3])), nontrivial=True)
+        ref = runs[0]
+        for r in runs[1:]:
+            if r[2] != ref[2]:
+                yield {"kind": "hashseed-dependent-cli-output", "argv": ref[3], "files": ref[4], "hashseeds": [ref[0], r[0]],
+                       "observed": {"seed_%d" % ref[0]: (ref[2] or "")[:1500], "seed_%d" % r[0]: (r[2] or "")[:1500]}}
+                break
+
+
 def falsify(ctx):
     rng = ctx.rng("fals")
+    yield from cli_pattern_cases(ctx, rng)
     # the same hash seed in many fresh processes (memory layout varies), then different seeds
     id_cases = [many_roots_case(rng) for _ in range(ctx.n(6, 40))] + [gen_case(rng) for _ in range(ctx.n(10, 60))]
     for c in id_cases:
@@ -89,6 +123,13 @@ def falsify(ctx):
 
 
 def replay(ctx, hit):
+    if hit.get("kind") == "hashseed-dependent-cli-output":
+        import tempfile
+        from .. import clitools
+        with tempfile.TemporaryDirectory(prefix="j2m-c06-") as d:
+            clitools.write_files(d, hit["files"])
+            outs = [clitools.strip_header(clitools.run_cli(hit["argv"], d, ctx.repo, s)[1]) for s in range(12)]
+        return {"kind": hit["kind"], "observed": f"{len(set(outs))} different outputs over 12 hash seeds"} if len(set(outs)) > 1 else None
     for h in compare([hit["case"]], list(range(8)), ctx.repo):
         return h
     return None
